@@ -174,8 +174,11 @@ func (w *world) start(r *replica, bootstrap bool) {
 	}
 	r.tr = raft.NewTransport(r.id, fmt.Sprintf("sim:%d", r.id), conn)
 	// the member list as the product's catalogue would hold it now: founding members plus joined replicas
-	var peers []uint64
+	var peers, founding []uint64
 	for _, p := range w.reps {
+		if !p.joiner {
+			founding = append(founding, p.id)
+		}
 		if !p.joiner || p.joined {
 			peers = append(peers, p.id)
 		}
@@ -213,11 +216,15 @@ func (w *world) start(r *replica, bootstrap bool) {
 	switch {
 	case r.joiner && r.inc == 1:
 		nodeIds = nil // first start of a joiner: partition.addNode -> loadRaft(nil)
-	case r.joiner && pristine && pbt.Open("C05:pristine-joiner-restarted-with-peers"):
-		// known finding: the product would pass the member list here too and the pristine joiner would bootstrap a log
-		// of its own; the harness restarts it the way its first start went
+	case pristine && (r.joiner || len(peers) != len(founding)) && pbt.Open("C05:pristine-replica-restarted-after-membership-change"):
+		// known finding: the product passes the member list of the moment here too, and a replica whose store is still
+		// pristine bootstraps a log of its own from it - right only for a founding member while the list is still the
+		// founding one. While the finding is open the harness starts such a replica the way its first start went.
 		nodeIds = nil
-		pbt.CountExcluded("TestRaftGlueSafety", "C05:pristine-joiner-restarted-with-peers")
+		if !r.joiner {
+			nodeIds = founding
+		}
+		pbt.CountExcluded("TestRaftGlueSafety", "C05:pristine-replica-restarted-after-membership-change")
 	default:
 		// bootstrap of a founding member, and every restart: the product always passes the member list and leaves it
 		// to startRaftNode to tell a pristine store from one that holds state
@@ -297,6 +304,35 @@ func (w *world) collectWalViolations() {
 		}
 		for _, v := range r.mon.TakeViolations() {
 			w.setFail(pbt.Failf("C05:log-store-invariant", "replica %d: %s", r.i, v))
+		}
+	}
+	// log matching on what is durable and committed: two replicas never hold different entries (terms) at a position
+	// both of them have made durable as committed
+	var views []sim.Durable
+	var who []int
+	for _, r := range w.reps {
+		if r.mon != nil {
+			views = append(views, r.mon.DurableView())
+			who = append(who, r.i)
+		}
+	}
+	for a := 0; a < len(views); a++ {
+		for b := a + 1; b < len(views); b++ {
+			hi := views[a].Commit
+			if views[b].Commit < hi {
+				hi = views[b].Commit
+			}
+			for i := hi; i > 0; i-- {
+				ta, oka := views[a].Terms[i]
+				tb, okb := views[b].Terms[i]
+				if !oka || !okb || i <= views[a].SnapIndex || i <= views[b].SnapIndex {
+					break // compacted on one side: nothing to compare below
+				}
+				if ta != tb {
+					w.setFail(pbt.Failf("C05:committed-entries-differ", "replica %d holds an entry of term %d at index %d, replica %d one of term %d, and both have made that index durable as committed (commit %d / %d)", who[a], ta, i, who[b], tb, views[a].Commit, views[b].Commit))
+					break
+				}
+			}
 		}
 	}
 	if f := sim.TakeUnexpectedFatal(); f != "" {
@@ -586,7 +622,7 @@ func check(c Case, o *pbt.Obs) *pbt.Failure {
 func TestRaftGlueSafety(t *testing.T) {
 	pbt.Run(t, pbt.Prop[Case]{
 		ID: "C05", Name: "TestRaftGlueSafety",
-		Rule:    "rapid-generated schedules over 1-5 real RaftGroups (real ready loop, RaftTransport and Badger log stores; in-memory message shims): proposals at any replica, logical ticks through the loop hook, partitions/heals, per-link decision tapes (deliver/drop-with-error/drop-silently/duplicate/delay), crash of a replica at its k-th next durable write before or after performing it, restart over the same store passing the member list of the moment (as the product's allocator does; startRaftNode must tell a pristine store from one that holds state), 0-2 late joiners (membership change proposed at the leader, the joiner starts without peers), snapshot-now; invariants checked online: applied payload sequences of all incarnations are prefixes of one canonical sequence (snapshots included), a granted MsgVoteResp / accepted MsgAppResp leaves only after the term+vote / entries it attests are durable in the sender's log store, durable term/commit never go back, vote never changes within a term, committed entries are never overwritten, a restarted replica resumes at a term/vote/commit no older than durable, no log.Fatal without injected crash; finally all replicas are restarted, healed and must converge on equal sequences containing a probe (bounded logical time; non-convergence is counted inconclusive); non-trivial = a fault or crash plan was active and entries were applied afterwards; distinct = distinct case JSON",
+		Rule:    "rapid-generated schedules over 1-5 real RaftGroups (real ready loop, RaftTransport and Badger log stores; in-memory message shims): proposals at any replica, logical ticks through the loop hook, partitions/heals, per-link decision tapes (deliver/drop-with-error/drop-silently/duplicate/delay), crash of a replica at its k-th next durable write before or after performing it, restart over the same store passing the member list of the moment (as the product's allocator does; startRaftNode must tell a pristine store from one that holds state), 0-2 late joiners (membership change proposed at the leader, the joiner starts without peers), snapshot-now; invariants checked online: applied payload sequences of all incarnations are prefixes of one canonical sequence (snapshots included), a granted MsgVoteResp / accepted MsgAppResp leaves only after the term+vote / entries it attests are durable in the sender's log store, durable term/commit never go back, vote never changes within a term, committed entries are never overwritten, a restarted replica resumes at a term/vote/commit no older than durable, no two replicas hold entries of different terms at an index both have made durable as committed, no log.Fatal without injected crash; finally all replicas are restarted, healed and must converge on equal sequences containing a probe (bounded logical time; non-convergence is counted inconclusive); non-trivial = a fault or crash plan was active and entries were applied afterwards; distinct = distinct case JSON",
 		Gen:     genCase,
 		Check:   check,
 		Journal: true,
